@@ -321,7 +321,66 @@ def check_placeholder_table(run, f, cfg):
             run.ob("C01.R5", "placeholder:" + short, v == want, "%s::placeholder() is %r" % (short, want), sp=f.fn(name)["sp"], cfg=cfg, detail=v)
 
 
+def entry_point_by_interp(f, tname, inner):
+    """interpret build / build_any (through any helper) with an opaque backend whose placeholder() is a pair of markers and
+    an opaque render step; returns a list of deviations (empty = wired correctly), or raises Unsupported"""
+    from ..interp import Interp, Opaque
+    fn = f.fn(tname)
+    qb = fn["params"][1]["pat"].get("name")
+    it = Interp(f)
+    it.free_opaque = True
+    it.opaque_conversions = True
+    it.max_depth = 8
+    seen = {"rendered": []}
+
+    def placeholder(it_, args):
+        if not (args and isinstance(args[0], Opaque) and args[0].tag == qb):
+            seen.setdefault("bad", []).append("placeholder() of something other than the backend passed in")
+        return (Opaque("MARK"), Opaque("NUMBERED"))
+    it.builtins = {"crate::backend::query_builder::QueryBuilder::placeholder": placeholder}
+    it.opaque_call = lambda e: (e.get("name") or (e.get("callee") or "").rsplit("::", 1)[-1]) == inner
+
+    def render(it_, e, env, depth):
+        recv = it_.ev(e["recv"], env, depth) if e.get("k") == "mcall" else None
+        args = [it_.ev(a, env, depth) for a in e.get("args") or []]
+        seen["rendered"].append((recv, args))
+        w = args[-1] if args else None
+        if isinstance(w, dict) and isinstance(w.get("values"), list):
+            w["values"].append(Opaque("RENDERED"))       # what the renderer binds shows up in the writer it was given
+        return ()
+    it.unknown_call = render
+    r = it.call_fn(tname, [Opaque("self"), Opaque(qb)])
+    bad = list(seen.get("bad") or [])
+    if len(seen["rendered"]) != 1:
+        bad.append("%s called %d times" % (inner, len(seen["rendered"])))
+        return bad
+    recv, args = seen["rendered"][0]
+    if not (isinstance(recv, Opaque) and recv.tag == "self"):
+        bad.append("%s called on something other than self" % inner)
+    if not (len(args) == 2 and isinstance(args[0], Opaque) and args[0].tag == qb):
+        bad.append("%s not given the backend passed in" % inner)
+    w = args[-1] if args else None
+    if not isinstance(w, dict):
+        bad.append("the writer handed to %s is not a SqlWriterValues" % inner)
+        return bad
+    if not (isinstance(w.get("placeholder"), Opaque) and w["placeholder"].tag == "MARK" and isinstance(w.get("numbered"), Opaque) and w["numbered"].tag == "NUMBERED"):
+        bad.append("writer created with (%r, %r) instead of the backend's placeholder()" % (w.get("placeholder"), w.get("numbered")))
+    if w.get("counter") != 0:
+        bad.append("writer counter starts at %r" % (w.get("counter"),))
+    # the result is the text and the values of that same writer
+    if not (isinstance(r, tuple) and len(r) == 2):
+        bad.append("returns %r" % (r,))
+        return bad
+    vals = r[1].fields[0] if hasattr(r[1], "fields") and r[1].fields else r[1]
+    if not (isinstance(vals, list) and [getattr(x, "tag", None) for x in vals] == ["RENDERED"]):
+        bad.append("the returned values are not those the renderer bound: %r" % (vals,))
+    if r[0] is not w.get("string") and r[0] != w.get("string"):
+        bad.append("the returned text is not the writer's text")
+    return bad
+
+
 def check_entry_points(run, f, cfg):
+    from ..interp import Unsupported, Diverged
     for tname, inner in (("crate::query::traits::QueryStatementBuilder::build_any", "build_collect_any_into"),
                          ("crate::query::traits::QueryStatementWriter::build", "build_collect_into")):
         short = tname.rsplit("::", 1)[-1]
@@ -331,6 +390,15 @@ def check_entry_points(run, f, cfg):
         except KeyError:
             run.anchor("C01.R6", short, "%s not found" % tname, cfg)
             continue
+        try:
+            bad = entry_point_by_interp(f, tname, inner)
+            run.ob("C01.R6", "%s:wiring" % short, not bad,
+                   "%s (interpreted with an opaque backend and render step): writer = SqlWriterValues::new(placeholder() of the rendering backend), "
+                   "rendered once by %s(self, that backend, writer), returns that writer's text and values%s" % (short, inner, "" if not bad else " - NOT: " + "; ".join(bad)),
+                   sp=fn["sp"], cfg=cfg)
+            continue
+        except (Unsupported, Diverged) as e_:
+            run.notes.append("C01.R6 %s outside the interpreter's fragment (%s): decided by its call sequence" % (short, e_))
         qb = fn["params"][1]["pat"].get("name")
         ps = [p for p in P.fn_paths(body) if p.out != "diverge"]
         for i, p in enumerate(ps):
@@ -404,6 +472,22 @@ def check_no_literal_marks(run, f, cfg):
 
 def check_no_side_writer(run, f, cfg):
     allowed = {"crate::query::traits::QueryStatementBuilder::build_any", "crate::query::traits::QueryStatementWriter::build"}
+    callers = {}
+    for name, fn in f.fns.items():
+        if fn.get("kind") != "fn" or fn.get("hir") is None:
+            continue
+        for c in H.calls(fn["hir"]):
+            for d in (c.get("callee"), H.callee(c)):
+                if d:
+                    callers.setdefault(d, set()).add(name)
+
+    def only_from_entry_points(name, depth=0):
+        """a helper all of whose callers are build / build_any (or such helpers) - it has no caller among the renderers"""
+        if name in allowed:
+            return True
+        cs = callers.get(name) or set()
+        return depth < 3 and bool(cs) and "dyn crate::prepare::SqlWriter" not in " ".join(f.ty(p["ty"]) for p in f.fns[name].get("params") or []) and \
+            all(only_from_entry_points(c, depth + 1) for c in cs)
     n = 0
     for name, fn in f.fns.items():
         if fn.get("kind") != "fn":
@@ -411,10 +495,10 @@ def check_no_side_writer(run, f, cfg):
         for c in H.calls(fn["hir"], lambda c: c.get("callee") == NEW):
             n += 1
             intest = "::tests" in name or "::test::" in name
-            run.ob("C01.R9", "new-call:%s" % name, name in allowed or intest,
-                   "SqlWriterValues::new is called only by build/build_any (a second collecting writer would drop its values)",
+            run.ob("C01.R9", "new-call:%s" % name, intest or only_from_entry_points(name),
+                   "SqlWriterValues::new is called only by build/build_any or a helper that only they call (a second collecting writer would drop its values)",
                    sp=c.get("sp"), cfg=cfg)
-    run.floor("C01.R9", "new-callers", n, 2, cfg)
+    run.floor("C01.R9", "new-callers", n, 1, cfg)
 
 
 def check(run):
